@@ -17,20 +17,20 @@ sys.path.insert(0, os.path.join(ROOT, "tools")); sys.path.insert(0, ROOT)
 def mutants(ids):
     ok = True
     for d in sorted(glob.glob(os.path.join(ROOT, "seeded", "C*"))):
-        pid = os.path.basename(d)
-        if ids and pid not in ids: continue
+        name = os.path.basename(d); pid = name[:3]          # seeded/C07b is a second seed for C07
+        if ids and pid not in ids and name not in ids: continue
         scratch = tempfile.mkdtemp(prefix="verif_selftest_")
         try:
             shutil.copytree("/repo/include", os.path.join(scratch, "include"))
             r = subprocess.run(["patch", "-p1", "-s", "-i", os.path.join(d, "patch.diff")], cwd=scratch, capture_output=True, text=True)
             if r.returncode != 0:
-                print(f"MUTANT {pid}: patch does not apply to the current tree: {r.stdout[-200:]}{r.stderr[-200:]}"); ok = False; continue
+                print(f"MUTANT {name}: patch does not apply to the current tree: {r.stdout[-200:]}{r.stderr[-200:]}"); ok = False; continue
             env = dict(os.environ, VERIF_REPO=scratch)
             r = subprocess.run([os.path.join(ROOT, "verif"), "check", pid, "--tier", "quick"], env=env, capture_output=True, text=True, timeout=3600)
             nv = sum(1 for l in r.stdout.splitlines() if l.startswith("VIOLATION"))
             verdict = "caught" if (r.returncode == 1 and nv > 0) else f"MISSED (rc={r.returncode})"
             if verdict != "caught": ok = False
-            print(f"MUTANT {pid}: {verdict}, {nv} violation lines")
+            print(f"MUTANT {name}: {verdict}, {nv} violation lines")
         finally:
             shutil.rmtree(scratch, ignore_errors=True)
     return ok
